@@ -341,6 +341,10 @@ class QuiltWorld(WorldBase):
             op['c'] = self._key(ch, nc, hier=self.retain and self.axis == 1)
             if what == 'q_iloc' and ch.chance(0.2):
                 op['c'] = None  # single-axis key
+            if what == 'q_iloc' and ch.chance(0.3):
+                for kk in ('r', 'c'):
+                    if op.get(kk) and ('i' in op[kk] or 'l' in op[kk]):
+                        op[kk] = dict(op[kk], np=1)
             if what == 'q_loc' and self.date_axis:
                 op['strkeys'] = ch.choice(['no', 'iso', 'iso', 'month'])
         elif what == 'q_getitem':
@@ -518,11 +522,11 @@ class QuiltWorld(WorldBase):
         if key is None or 'all' in key:
             return slice(None)
         if 'i' in key:
-            return key['i']
+            return np.int64(key['i']) if key.get('np') else key['i']  # positions as they come out of np.arange / argmax
         if 's' in key:
             return slice(*key['s'])
         if 'l' in key:
-            return list(key['l'])
+            return np.array(key['l'], dtype=np.int64) if (key.get('np') and key['l']) else list(key['l'])
         return np.array(key['b'], dtype=bool)
 
     def _lkey(self, key, labels):
